@@ -51,12 +51,18 @@ def regen(ctx):
 
 # ------------------------------------------------------------------ cases
 
-def gen_case(rnd, rescan_share=1.0, env_share=0.0):
+def gen_case(rnd, rescan_share=1.0, env_share=0.0, exclusion_change_share=0.0):
     tree = sr.gen_tree(rnd, max_depth=rnd.choice([2, 3, 4, 4]))
     patterns = sr.gen_patterns(rnd, tree)
     muts = sr.gen_mutations(rnd, tree) if not sr.all_links(tree) else []      # mutations move / rewrite plain files only
     case = {"tree": sr.tree_to_json(tree), "patterns": patterns, "sources": sr.split_sources(rnd, patterns),
             "form": rnd.choice(FORMS), "mutations": muts if rnd.random() < rescan_share else []}
+    if exclusion_change_share and rnd.random() < exclusion_change_share:
+        # history: scan -> the exclusion list changes (lines added / removed, any source) -> scan again (cached / fresh)
+        if rnd.random() < 0.6:
+            case["mutations"] = []          # ... with every file byte-identical
+        t2 = sr.tree_from_files(sr.mutate_files(sr.files_dict(tree), case["mutations"])) if case["mutations"] else tree
+        case["exclusions2"] = sr.gen_exclusion_change(rnd, t2, patterns, case["sources"])
     if env_share and rnd.random() < env_share:
         # the surroundings of the root (directories above it: hidden / built-in-excluded / plain names, a git checkout's
         # `.git` and `.gitignore` in one of them) are part of the case; only what lies under the root counts
@@ -138,10 +144,12 @@ def observe(case):
         }
         # state probe: the codebase changes (case["mutations"]) and is scanned AGAIN in this process - once with the
         # first scan's report handed back as `cached_report` (what `codelimit scan` does), once from scratch
-        if case.get("mutations") and cb1 is not None:
+        if (case.get("mutations") or case.get("exclusions2")) and cb1 is not None:
             try:
                 cached = sr.as_cached_report(cb1)
-                sr.apply_mutations_fs(T.root, case["mutations"])
+                sr.apply_mutations_fs(T.root, case.get("mutations") or [])
+                if case.get("exclusions2"):
+                    sr.reinstall_exclusions(T.root, case["exclusions2"]["sources"], arg)
                 e_c, _a, _cb = sr.run_scan_cb(arg, cached)
                 e_f, _a, _cb = sr.run_scan_cb(arg)
                 real["rescan"] = {"cached": {k: [lang, cs, [list(m) for m in ms], p, loc] for (k, lang, cs, ms, p, loc) in e_c},
@@ -221,10 +229,12 @@ def oracle(case, real):
         if "error" in rs:
             bad.append("second scan (after the mutations) raised %s" % rs["error"])
         else:
-            exp2 = sr.spec_selected(sr.tree_from_files(sr.mutate_files(sr.files_dict(tree), case["mutations"])), case["patterns"])
+            muts = case.get("mutations") or []
+            pats2 = (case.get("exclusions2") or {}).get("patterns", case["patterns"])
+            exp2 = sr.spec_selected(sr.tree_from_files(sr.mutate_files(sr.files_dict(tree), muts)) if muts else tree, pats2)
             for which in ("cached", "fresh"):
                 got = rs[which]
-                tag = "second scan after %s (%s)" % ([op[:1] + ["/".join(x) for x in op[1:] if isinstance(x, list)] for op in case["mutations"]], "first report handed back as cached_report" if which == "cached" else "from scratch")
+                tag = "second scan after %s%s (%s)" % ([op[:1] + ["/".join(x) for x in op[1:] if isinstance(x, list)] for op in muts], (" and the exclusion list changed from %s to %s" % (case["patterns"], pats2)) if case.get("exclusions2") else "", "first report handed back as cached_report" if which == "cached" else "from scratch")
                 if set(got) != set(exp2):
                     bad.append("%s: key set: extra %s missing %s" % (tag, sorted(set(got) - set(exp2))[:4], sorted(set(exp2) - set(got))[:4]))
                 for k, v in got.items():
@@ -312,7 +322,10 @@ def _correspond_selection(ctx):
     cases = [dict(c) for c in FIXED]
     for f in FORMS:
         cases.append(dict(FIXED[0], form=f))
-    cases += [gen_case(rnd, ctx.pick(0.34, 0.5)) for _ in range(n)]
+    cases += [gen_case(rnd, ctx.pick(0.34, 0.5), 0.0, 0.25) for _ in range(n)]
+    for k, base in enumerate(FIXED):         # the fixed trees: one more exclusion line between the scans, each source in turn
+        if sr.spec_selected(sr.tree_from_json(base["tree"]), base["patterns"]):
+            cases.append(dict(base, mutations=[], exclusions2=sr.gen_exclusion_change(rnd, sr.tree_from_json(base["tree"]), base["patterns"], base["sources"])))
     # the environment of the root: small fixed trees x generated surroundings x root forms, and a share of random trees
     re_ = ctx.rng("environment")
     for k in range(ctx.pick(12, 60)):
@@ -323,11 +336,15 @@ def _correspond_selection(ctx):
     obs, dis, fails = run_cases(cases)
     dist = {"forms": {}, "sources": {}, "skip_reasons": {}, "files": 0, "selected": 0,
             "rescans_after_mutation": sum(1 for c in cases if c.get("mutations")),
+            "rescans_after_exclusion_change": sum(1 for c in cases if c.get("exclusions2")),
+            "rescans_after_exclusion_change_files_untouched": sum(1 for c in cases if c.get("exclusions2") and not c.get("mutations")),
+            "rescans_where_a_contributing_file_became_excluded": sum(1 for c in cases if c.get("exclusions2") and _newly_excluded(c)),
+            "rescans_where_an_excluded_file_came_back": sum(1 for c in cases if c.get("exclusions2") and _newly_excluded(c, True)),
             "with_environment": sum(1 for c in cases if c.get("env")),
             "environment_hidden_ancestor": sum(1 for c in cases if any(a.startswith(".") for a in (c.get("env") or {}).get("above", []))),
             "environment_git_checkout_above": sum(1 for c in cases if any(f.split("/")[-1] == ".git" or "/.git/" in "/" + f for f in (c.get("env") or {}).get("files", {}))),
             "environment_gitignore_above_and_none_at_root": sum(1 for c in cases if any(f.endswith(".gitignore") for f in (c.get("env") or {}).get("files", {})) and not c["sources"]["gitignore"]),
-            "rescan_mutations": {k: sum(1 for c in cases for op in c.get("mutations", []) if op[0] == k) for k in ("copy", "move", "write", "delete")}}
+            "rescan_mutations": {k: sum(1 for c in cases for op in (c.get("mutations") or []) if op[0] == k) for k in ("copy", "move", "write", "delete")}}
     nontrivial = set()
     for c, (real, _l, _i) in zip(cases, obs):
         nf, ns, reasons = classify(c, real)
@@ -374,13 +391,19 @@ def _correspond_selection(ctx):
     dist["gitignore_scan"] = gs["counts"]
     return {
         "evaluations": len(cases) + gi["counts"]["cases"] + gs["counts"].get("cases", 0) + gn["counts"]["cases"], "distinct_nontrivial": len(nontrivial) + gi["counts"]["patterns_biting"],
-        "rule": "%d random trees (name pool: hidden .git/.venv/.cache/.hidden.py, built-in excluded tests/test/build/dist/node_modules/venv/_build/buck-out, ordinary src/pkg/a/lib; depth <= 4; supported, unsupported and no extension; Latin-1, malformed, empty contents; a third of the trees with 1-3 symbolic links to files inside the tree - also in hidden / excluded folders - or outside the root) x 0-3 patterns of the 5 gitignore classes x pattern source (option/.codelimit.yml/.gitignore/mixed) x root form (%s) + %d fixed cases; state probe: after the first scan a share of the trees is mutated (a file copied / renamed to another extension in the same or another directory, new possibly empty files, contents swapped or emptied, files deleted) and scanned twice more in the same process - with the first scan's report (written and read back) handed in as cached_report, and from scratch: both must give the entries the property text requires for the mutated tree and agree with each other; non-trivial = distinct (tree, patterns) with at least one selected and one skipped file; round 5: the root is also spelled through a symbolic link to a directory (link_root) and with `..` AFTER such a link (`lnk/../root`, `z/lnk/sub/../../root`, absolute with `//`: the root is what the OS reaches, a decoy tree sits where textual `..` removal would land); a share of the file names comes from the Pygments-derived pool (every extension / whole name of a supported language: x.h, x.hh, x.mjs, x.pyi, BUILD.bazel, SConscript, ...; same-suffix non-sources AUTHORS / NOTICE / defs.bazel next to them), NFC / NFD spellings of one name (often both in one directory, also as directory names) and shell/JSON/pattern-awkward names; sub-directories carry nested .gitignore files whose lines name files beneath them (only the root one counts); rewritten files partly keep or get an OLD modification time before the rescan; round 6: %d cases carry an ENVIRONMENT (harness/select_real.gen_env): 1-3 directories above the root named from the hidden / built-in-excluded / plain pools (%d with a hidden ancestor), one of them the top of a git checkout / worktree (`.git` directory or file; %d) with a .gitignore whose lines are drawn from the names in the tree (%d over a root that has no .gitignore of its own) - only what lies under the root may count; the twin tree has no environment; files that are ONE function of n lines for n on the thresholds' neighbours and source-integer rungs, with / without final newline, CR LF; PLUS pattern lists of the six classes x exhaustive / random path universes: the Lean pattern model vs Scanner.generate_exclude_spec + is_excluded (decisions, parse classes, generated regular expressions), and scan_path on real trees vs the model's selection (non-trivial there = patterns that exclude at least one path); PLUS %d pattern lists WITH negation lines (`!` + one of the six classes, aimed at a path an earlier line excludes; one source per list) x real trees + path universes: scan_path and generate_exclude_spec/is_excluded judged by the rule that the LAST matching line decides, where %s agrees (%d decisions judged, %d re-included by a `!` line, %d not judged because git decides per directory entry)" % (n, "/".join(FORMS), len(FIXED) + len(FORMS), dist["with_environment"], dist["environment_hidden_ancestor"], dist["environment_git_checkout_above"], dist["environment_gitignore_above_and_none_at_root"], gn["counts"]["cases"], "the real `git check-ignore`" if gn["counts"]["git"] else "(git not installed: the reading alone)", gn["counts"].get("judged", 0), gn["counts"].get("reincluded", 0), gn["counts"].get("git_differs_not_judged", 0)),
+        "rule": "%d random trees (name pool: hidden .git/.venv/.cache/.hidden.py, built-in excluded tests/test/build/dist/node_modules/venv/_build/buck-out, ordinary src/pkg/a/lib; depth <= 4; supported, unsupported and no extension; Latin-1, malformed, empty contents; a third of the trees with 1-3 symbolic links to files inside the tree - also in hidden / excluded folders - or outside the root) x 0-3 patterns of the 5 gitignore classes x pattern source (option/.codelimit.yml/.gitignore/mixed) x root form (%s) + %d fixed cases; state probe: after the first scan a share of the trees is mutated (a file copied / renamed to another extension in the same or another directory, new possibly empty files, contents swapped or emptied, files deleted) and scanned twice more in the same process - with the first scan's report (written and read back) handed in as cached_report, and from scratch: both must give the entries the property text requires for the mutated tree and agree with each other; non-trivial = distinct (tree, patterns) with at least one selected and one skipped file; round 5: the root is also spelled through a symbolic link to a directory (link_root) and with `..` AFTER such a link (`lnk/../root`, `z/lnk/sub/../../root`, absolute with `//`: the root is what the OS reaches, a decoy tree sits where textual `..` removal would land); a share of the file names comes from the Pygments-derived pool (every extension / whole name of a supported language: x.h, x.hh, x.mjs, x.pyi, BUILD.bazel, SConscript, ...; same-suffix non-sources AUTHORS / NOTICE / defs.bazel next to them), NFC / NFD spellings of one name (often both in one directory, also as directory names) and shell/JSON/pattern-awkward names; sub-directories carry nested .gitignore files whose lines name files beneath them (only the root one counts); rewritten files partly keep or get an OLD modification time before the rescan; round 7: in %d rescans the EXCLUSION LIST changes between the first scan and the two later ones (lines added - aimed at files that contributed - and / or removed; option / .codelimit.yml / root .gitignore; %d with every file byte-identical; a contributing file becomes excluded in %d, an excluded one comes back in %d): cached and fresh rescan must both give what the NEW list selects; round 6: %d cases carry an ENVIRONMENT (harness/select_real.gen_env): 1-3 directories above the root named from the hidden / built-in-excluded / plain pools (%d with a hidden ancestor), one of them the top of a git checkout / worktree (`.git` directory or file; %d) with a .gitignore whose lines are drawn from the names in the tree (%d over a root that has no .gitignore of its own) - only what lies under the root may count; the twin tree has no environment; files that are ONE function of n lines for n on the thresholds' neighbours and source-integer rungs, with / without final newline, CR LF; PLUS pattern lists of the six classes x exhaustive / random path universes: the Lean pattern model vs Scanner.generate_exclude_spec + is_excluded (decisions, parse classes, generated regular expressions), and scan_path on real trees vs the model's selection (non-trivial there = patterns that exclude at least one path); PLUS %d pattern lists WITH negation lines (`!` + one of the six classes, aimed at a path an earlier line excludes; one source per list) x real trees + path universes: scan_path and generate_exclude_spec/is_excluded judged by the rule that the LAST matching line decides, where %s agrees (%d decisions judged, %d re-included by a `!` line, %d not judged because git decides per directory entry)" % (n, "/".join(FORMS), len(FIXED) + len(FORMS), dist["rescans_after_exclusion_change"], dist["rescans_after_exclusion_change_files_untouched"], dist["rescans_where_a_contributing_file_became_excluded"], dist["rescans_where_an_excluded_file_came_back"], dist["with_environment"], dist["environment_hidden_ancestor"], dist["environment_git_checkout_above"], dist["environment_gitignore_above_and_none_at_root"], gn["counts"]["cases"], "the real `git check-ignore`" if gn["counts"]["git"] else "(git not installed: the reading alone)", gn["counts"].get("judged", 0), gn["counts"].get("reincluded", 0), gn["counts"].get("git_differs_not_judged", 0)),
         "samples": [{"form": c["form"], "patterns": c["patterns"], "sources": c["sources"],
                      "keys": [e[0] for e in o[0]["entries"]][:6]} for c, o in list(zip(cases, obs))[:4]],
         "exhaustive": False, "distribution": dist,
         "disagreements": dis[:50], "oracle_failures": sorted(fails, key=lambda f: len(json.dumps(f["input"], default=str)))[:50],
         "generated_hashes": {"Gen/Excludes.lean": _sha(os.path.join(common.LEAN, "CodeLimit", "Gen", "Excludes.lean"))},
     }
+
+
+def _newly_excluded(c, back=False):
+    tree = sr.tree_from_json(c["tree"])
+    a, b = set(sr.spec_selected(tree, c["patterns"])), set(sr.spec_selected(tree, c["exclusions2"]["patterns"]))
+    return bool(b - a) if back else bool(a - b)
 
 
 def _sha(path):
